@@ -494,9 +494,13 @@ func startWithListenerFds(cdyfile Input, inst *Instance, restartFds map[string]r
 	instancesMu.Lock()
 	instances = append(instances, inst)
 	instancesMu.Unlock()
+	// directives may register event hooks while they are set up;
+	// if the load fails, the registry must be left as it was
+	oldEventHooks := cloneEventHooks()
 	var err error
 	defer func() {
 		if err != nil {
+			restoreEventHooks(oldEventHooks)
 			instancesMu.Lock()
 			for i, otherInst := range instances {
 				if otherInst == inst {
@@ -582,6 +586,9 @@ func startWithListenerFds(cdyfile Input, inst *Instance, restartFds map[string]r
 func ValidateAndExecuteDirectives(cdyfile Input, inst *Instance, justValidate bool) error {
 	// If parsing only inst will be nil, create an instance for this function call only.
 	if justValidate {
+		// validation must not leave behind the event hooks that directives register
+		oldEventHooks := cloneEventHooks()
+		defer restoreEventHooks(oldEventHooks)
 		inst = &Instance{serverType: cdyfile.ServerType(), wg: new(sync.WaitGroup), Storage: make(map[interface{}]interface{})}
 	}
 
